@@ -104,17 +104,7 @@ def run(rep, tier):
                     probs.get(pr, 'END_OF_FILE or a diagnostic is reached'), nontrivial=True)
     # R5: downcasts
     rep.rule('R5', 'every dynamic_cast whose result is dereferenced is null-tested or sits under the token/predicate guard recorded for its function', floor=6)
-    for f in idx.all_funcs():
-        if f.body is None or f.node.get('isImplicit') or not f.qname.startswith('hexasm::'):
-            continue
-        for use, where, tgt in robust.downcasts(idx, f):
-            if use == 'tested':
-                rep.add('R5', '%s:%s:tested' % (f.qname, tgt), True, where + ' ' + f.qname, 'result is null-tested', nontrivial=False)
-            elif (f.qname, tgt) in DOWNCAST_GUARDS:
-                rep.add('R5', '%s:%s' % (f.qname, tgt), True, where + ' ' + f.qname, '%s (%s)' % (use, DOWNCAST_GUARDS[(f.qname, tgt)]), nontrivial=False)
-            else:
-                rep.add('R5', '%s:%s' % (f.qname, tgt), False, where + ' ' + f.qname,
-                        'dynamic_cast<%s> is dereferenced without a null test and without a recorded guard (%s)' % (tgt, use))
+    robust.rule_downcasts(rep, 'R5', idx, 'hexasm::', DOWNCAST_GUARDS)
     # R8 / R9: imports
     rep.rule('R8', 'no undefined behaviour while sizing/encoding any immediate (import of C04-R1 for one mnemonic over the whole int range)', floor=20)
     emit = idx.func('hexasm::CodeGen::emitProgramBin')
